@@ -116,7 +116,7 @@ func runC02(c *Ctx) {
 		}
 	}
 	memberFact := func(b *ssa.BasicBlock, setField string, keyOK func(ssa.Value) bool) bool {
-		for _, f := range FactsAt(b) {
+		for _, f := range p.FactsAtInter(b) {
 			ex, ok := f.Cond.(*ssa.Extract)
 			if !ok || ex.Index != 1 || !f.Truth {
 				continue
@@ -144,7 +144,7 @@ func runC02(c *Ctx) {
 			case "respCompression":
 				continue // response side, set when the backend's headers are seen (C03)
 			}
-			if fn != validate {
+			if !p.OnlyCalledWithin(fn, validate) {
 				c.Bad("C02.2", FuncName(fn), "store:server."+w.Field.Name(), w.Store.Pos(), "the negotiated server "+w.Field.Name()+" is stored outside validation")
 				continue
 			}
@@ -199,7 +199,7 @@ func runC02(c *Ctx) {
 							kinds = append(kinds, "const "+s)
 							// JSON only under server.protocol == REST
 							rest := false
-							for _, f := range FactsAt(st.Block()) {
+							for _, f := range p.FactsAtInter(st.Block()) {
 								if cmp, ok := f.AsCmp(); ok && cmp.Op == token.EQL {
 									if k, isK := ConstInt(cmp.Y); isK {
 										if obj, ok := p.Root.Pkg.Scope().Lookup("ProtocolREST").(*types.Const); ok && obj.Val().ExactString() == itoa(int(k)) {
